@@ -65,3 +65,17 @@ Theorem C04_history_clauses :
     C04.Run.clauses_from ipv n st prev ops (run_from [] ipv t ops) = [].
 Proof. exact history_clauses. Qed.
 Print Assumptions C04_history_clauses.
+
+(* non-vacuity: a history of the domain with a "changed", an "alive", a "changed" (BOOTID differs, other spelling)
+   and a byebye notification *)
+Definition ex_history : input :=
+  ([], [],
+   [Srch [([85;83;78]%N, HStr [117;117;105;100;58;97;58;58;116]%N); ([83;84]%N, HStr [116]%N); ([76;79;67;65;84;73;79;78]%N, HStr [104;116;116;112;58;47;47;104;47;120]%N); ([66;79;79;84;73;68;46;85;80;78;80;46;79;82;71]%N, HStr [49]%N); ([95;117;100;110]%N, HStr [117;117;105;100;58;97]%N); ([95;116;105;109;101;115;116;97;109;112]%N, HTime (TS 0))];
+    Srch [([117;115;110]%N, HStr [117;117;105;100;58;97;58;58;116]%N); ([115;116]%N, HStr [116]%N); ([108;111;99;97;116;105;111;110]%N, HStr [104;116;116;112;58;47;47;104;47;120]%N); ([98;111;111;116;105;100;46;117;112;110;112;46;111;114;103]%N, HStr [49]%N); ([95;117;100;110]%N, HStr [117;117;105;100;58;97]%N); ([95;116;105;109;101;115;116;97;109;112]%N, HTime (TS 5))];
+    Srch [([85;83;78]%N, HStr [117;117;105;100;58;97;58;58;116]%N); ([83;84]%N, HStr [116]%N); ([76;79;67;65;84;73;79;78]%N, HStr [104;116;116;112;58;47;47;104;47;120]%N); ([66;111;111;116;73;100;46;85;80;110;80;46;111;114;103]%N, HStr [50]%N); ([95;117;100;110]%N, HStr [117;117;105;100;58;97]%N); ([95;116;105;109;101;115;116;97;109;112]%N, HTime (TS 9))];
+    Adv [([85;83;78]%N, HStr [117;117;105;100;58;97;58;58;116]%N); ([78;84]%N, HStr [116]%N); ([78;84;83]%N, HStr [115;115;100;112;58;98;121;101;98;121;101]%N); ([95;117;100;110]%N, HStr [117;117;105;100;58;97]%N); ([95;116;105;109;101;115;116;97;109;112]%N, HTime (TS 12))]]).
+Example C04_notify_exact_nonvacuous :
+  dom ex_history = true /\
+  map (fun ob => match o_note ob with Some (_, _, c) => Some c | None => None end) (model_run ex_history)
+  = [Some 0; Some 1; Some 0; Some 3]%N.
+Proof. vm_compute. split; reflexivity. Qed.
